@@ -4,7 +4,9 @@ import (
 	"context"
 	"errors"
 	"fmt"
+	"runtime"
 	"strings"
+	"sync"
 	"time"
 
 	"github.com/ajitpratap0/GoSQLX/pkg/gosqlx"
@@ -392,6 +394,7 @@ func runC07(c *runCtx) {
 		}
 	}
 	c07BatchLadder(c)
+	c07SideBySide(c)
 	// batch calls: equal to the individual calls, failing at the first failing index
 	for round := 0; round < c.n(100, 2000) && len(batchAll) > 3; round++ {
 		k := 2 + c.rng.Intn(5)
@@ -516,4 +519,89 @@ func errCodeStr(err error) string {
 		return "ok"
 	}
 	return "err:" + errCode(err)
+}
+
+// c07SideBySide: the entry points agree also when several clients use them at the same time on different texts (each call
+// with its own instances, as documented): every answer is the one gosqlx.Parse gives for that text on its own
+func c07SideBySide(c *runCtx) {
+	res := c.res
+	texts := []string{"SELECT a FROM t WHERE a = 1", "SELECT a FROM t WHERE a = = 1", "INSERT INTO t (a, b) VALUES (1, 2), (3, 4)", "SELECT FROM t", "UPDATE t SET a = 1 WHERE b IN (SELECT c FROM u)",
+		"SELECT x, y, z FROM u JOIN v ON u.i = v.i ORDER BY x DESC LIMIT 3", "DELETE FROM t WHERE", "WITH c AS (SELECT 1) SELECT * FROM c", "SELECT 'open", "SELECT CASE WHEN a THEN 1 ELSE 2 END FROM t GROUP BY a HAVING COUNT(*) > 1",
+		"SELECT 1", "SELECT a, b FROM t; SELECT c FROM u", "CREATE TABLE t (a INT, b TEXT)", "SELECT (1, 2", "SELECT f(g(h(1))) FROM t WHERE x BETWEEN 1 AND 2"}
+	g := newSQLGen(c.rng.Fork())
+	for i := 0; i < 25; i++ {
+		texts = append(texts, g.Statement())
+	}
+	want := make([]string, len(texts))
+	for i, t := range texts {
+		want[i] = treeOutcome(gosqlx.Parse(t))
+	}
+	entries := []struct {
+		name string
+		f    func(s string) string
+	}{
+		{"gosqlx.ParseWithContext", func(s string) string { return treeOutcome(gosqlx.ParseWithContext(context.Background(), s)) }},
+		{"gosqlx.ParseWithTimeout", func(s string) string { return treeOutcome(gosqlx.ParseWithTimeout(s, time.Minute)) }},
+		{"gosqlx.Parse", func(s string) string { return treeOutcome(gosqlx.Parse(s)) }},
+		{"gosqlx.ParseBytes", func(s string) string { return treeOutcome(gosqlx.ParseBytes([]byte(s))) }},
+		{"Parser.ParseContextFromModelTokens", func(s string) string {
+			toks := tokenizeFresh(s)
+			if toks == nil {
+				return "err:lex"
+			}
+			p := parser.GetParser()
+			defer parser.PutParser(p)
+			return treeOutcome(p.ParseContextFromModelTokens(context.Background(), toks))
+		}},
+		{"Parser.ParseFromModelTokens", func(s string) string {
+			toks := tokenizeFresh(s)
+			if toks == nil {
+				return "err:lex"
+			}
+			p := parser.GetParser()
+			defer parser.PutParser(p)
+			return treeOutcome(p.ParseFromModelTokens(toks))
+		}},
+		{"parser.ParseWithDialect", func(s string) string { return treeOutcome(parser.ParseWithDialect(s, keywords.DialectPostgreSQL)) }},
+	}
+	prev := runtime.GOMAXPROCS(4)
+	defer runtime.GOMAXPROCS(prev)
+	for _, e := range entries {
+		var wg sync.WaitGroup
+		var mu sync.Mutex
+		bad := ""
+		for w := 0; w < 8; w++ {
+			w := w
+			wg.Add(1)
+			go func() {
+				defer wg.Done()
+				defer func() {
+					if r := recover(); r != nil {
+						mu.Lock()
+						bad = fmt.Sprint("panic: ", r)
+						mu.Unlock()
+					}
+				}()
+				for r := 0; r < c.n(250, 2500); r++ {
+					i := (w*7 + r*3) % len(texts)
+					got := e.f(texts[i])
+					ok := got == want[i]
+					if !ok && strings.HasPrefix(got, "err:") && strings.HasPrefix(want[i], "err:") && (got == "err:lex" || strings.HasPrefix(want[i], "err:E1")) {
+						ok = true // a lexical rejection reported by the helper without its code
+					}
+					if !ok {
+						mu.Lock()
+						bad = fmt.Sprintf("%q: got %s, alone %s", truncate(texts[i], 120), truncate(got, 160), truncate(want[i], 160))
+						mu.Unlock()
+						return
+					}
+				}
+			}()
+		}
+		wg.Wait()
+		res.count("side-by-side|"+e.name, true)
+		if bad != "" {
+			res.fail("entry-points-disagree-side-by-side:"+e.name, "used by several clients at the same time on different texts, an entry point answers differently from gosqlx.Parse on the same text alone", map[string]any{"entry": e.name, "clients": 8}, map[string]any{"what": bad})
+		}
+	}
 }
